@@ -101,7 +101,10 @@ Definition size_checks (wx wy wz ox oy oz gx gy gz : N) : bool :=
   && negb ((wx <? ox + 8 * gx) || (wy <? oy + 8 * gy) || (wz <? oz + 8 * gz))   (* boundsCheck *)
   && negb ((n_MaxSubBlockSize <? gx) || (n_MaxSubBlockSize <? gy) || (n_MaxSubBlockSize <? gz)).
 
-Definition encode_at (tbl : list N) (vol : list N) (wx wy wz ox oy oz gx gy gz : N) : res block :=
+(* [aligned_only] = true: the code as found — SBIndices is viewed through dvid.AliasByteToUint32,
+   which refuses the 2-byte aligned offset an odd number of sub-blocks gives.  [aligned_only] = false
+   (repo_patches/C09-2-fix.diff): a misaligned index area is read and written through a copy. *)
+Definition encode_gen (aligned_only : bool) (tbl : list N) (vol : list N) (wx wy wz ox oy oz gx gy gz : N) : res block :=
   if negb (size_checks wx wy wz ox oy oz gx gy gz) then Err
   else
     match gather vol wx wy ox oy oz gx gy gz with
@@ -112,7 +115,7 @@ Definition encode_at (tbl : list N) (vol : list N) (wx wy wz ox oy oz gx gy gz :
       | _ =>
         (* SBIndices start at 16 + 8*numLabels + 2*numSubBlocks: AliasByteToUint32 refuses an
            address that is not a multiple of 4, i.e. an odd number of sub-blocks *)
-        if N.odd (gx * gy * gz) then Err
+        if aligned_only && N.odd (gx * gy * gz) then Err
         else
           match mapO (fun e => mapO (fun l => index_of l tbl) (se_tbl e)) encs with
           | Some idxs =>
@@ -126,6 +129,9 @@ Definition encode_at (tbl : list N) (vol : list N) (wx wy wz ox oy oz gx gy gz :
     | Err => Err
     | Panic => Panic
     end.
+
+Definition encode_at := encode_gen false.
+Definition encode_at_asfound := encode_gen true.
 
 (* MakeBlock(uint64array, bsize) *)
 Definition encode (tbl : list N) (a : list N) (gx gy gz : N) : res block :=
@@ -347,7 +353,7 @@ Definition sum_N (l : list N) : N := fold_left N.add l 0.
 (* UnmarshalBinary + setExportedVars.  The data are copied into an 8-byte aligned buffer whose
    capacity is the length rounded up to 8 (zero filled); Go slice expressions are checked
    against the capacity, data[pos:] against the length; uint32 products wrap. *)
-Definition unmarshal (data : bytes) : res block :=
+Definition unmarshal_gen (aligned_only : bool) (data : bytes) : res block :=
   let len := N.of_nat (length data) in
   if len <? 24 then Err
   else
@@ -383,9 +389,12 @@ Definition unmarshal (data : bytes) : res block :=
             let hi3 := (hi2 + ibytes) mod 2 ^ 32 in
             if (hi3 <? hi2) || (cap <? hi3) then Panic              (* data[pos : pos+subBlockIndexBytes] *)
             else if ibytes =? 0 then Panic                         (* &b[0] of an empty slice *)
-            else if negb (hi2 mod 4 =? 0) then Err                 (* AliasByteToUint32: alignment *)
+            else if aligned_only && negb (hi2 mod 4 =? 0) then Err  (* AliasByteToUint32: alignment (as found) *)
             else if len <? hi3 then Panic                          (* data[pos:] *)
             else
               Ok {| b_gx := gx; b_gy := gy; b_gz := gz; b_labels := labels; b_nsb := nsb;
                     b_idx := words 4 (N.to_nat (ibytes / 4)) (skipn (N.to_nat hi2) buf);
                     b_vals := skipn (N.to_nat hi3) data |}.
+
+Definition unmarshal := unmarshal_gen false.
+Definition unmarshal_asfound := unmarshal_gen true.
